@@ -672,4 +672,59 @@ def freshRunBWith (claimF : BSeg → Bool) (s : WBState) : List WBOp → Bool
 
 def freshRunB : WBState → List WBOp → Bool := freshRunBWith BSeg.claims
 
+/-! ## (e) the existence check of the path-taking writers
+
+  `NITFWriter.__init__` (nitf.py:3547-3552; SICDWriter and SIDDWriter pass `check_existence` on), `CPHDWriter1.__init__`
+  (cphd.py:1347-1352; CRSDWriter1 passes it on), `SIOWriter.__init__` (sio.py:404-409):
+  `if isinstance(file_object, str): if check_existence and os.path.exists(file_object): raise SarpyIOError(...);
+   file_object = open(file_object, 'wb')`.  What is at the path beforehand is one of four things; the test looks at
+  existence only - not at size or content. -/
+
+/-- what is at the target path before the writer is constructed -/
+inductive PrePath where
+  | absent
+  | emptyFile
+  | nonEmptyFile
+  | directory
+deriving DecidableEq, Repr, Inhabited
+
+/-- `os.path.exists(path)` -/
+def PrePath.present : PrePath → Bool
+  | .absent => false
+  | _ => true
+
+/-- the `check_existence` argument: `none` = not given (the default of every writer family is `True`) -/
+def checkOf : Option Bool → Bool
+  | none => true
+  | some b => b
+
+/-- the test in front of `open(path, 'wb')` -/
+def refuses (check present : Bool) : Bool := check && present
+
+/-- outcome of constructing a writer on a path: `refused` = `SarpyIOError` before anything is touched,
+    `failed` = `open` itself raised (a directory), `opened clobbered` = the writer holds its own handle on the path and
+    whatever file was there has been truncated -/
+inductive CtorOut where
+  | refused
+  | failed
+  | opened (clobbered : Bool)
+deriving DecidableEq, Repr, Inhabited
+
+def pathCtor (pre : PrePath) (check : Option Bool) : CtorOut :=
+  if refuses (checkOf check) pre.present then .refused
+  else match pre with
+    | .absent => .opened false
+    | .directory => .failed
+    | _ => .opened true
+
+/-- the object that was at the path is still there, byte for byte, after construction returned or raised -/
+def kept (pre : PrePath) (check : Option Bool) : Bool :=
+  match pathCtor pre check with
+  | .refused => true
+  | .failed => true
+  | .opened clobbered => !clobbered
+
+/-- a (hypothetical) test that also looks at the size: an existing EMPTY file is not refused -/
+def refusesUnlessEmpty (check present nonEmpty : Bool) : Bool := check && present && nonEmpty
+
 end Sarpy.Spec.Lifecycle
